@@ -71,7 +71,7 @@ func (f *fault) gallina() string {
 	if f.Kind == "nf" {
 		return fmt.Sprintf("(%s, KNotFound)", site)
 	}
-	return fmt.Sprintf("(%s, KFail %d)", site, f.N)
+	return fmt.Sprintf("(%s, KFail %s)", site, gnat(f.N))
 }
 
 type effect struct {
@@ -84,17 +84,17 @@ type effect struct {
 func (e effect) gallina() string {
 	switch e.Kind {
 	case "taint":
-		return fmt.Sprintf("ETaint %d", e.A)
+		return fmt.Sprintf("ETaint %s", gnat(e.A))
 	case "cond":
-		return fmt.Sprintf("ECond %d", e.A)
+		return fmt.Sprintf("ECond %s", gnat(e.A))
 	case "create":
-		return fmt.Sprintf("ECreate %d %d %s", e.A, e.B, kit.GBool(e.Flag))
+		return fmt.Sprintf("ECreate %s %s %s", gnat(e.A), gnat(e.B), kit.GBool(e.Flag))
 	case "delete":
-		return fmt.Sprintf("EDelete %d %s", e.A, kit.GBool(e.Flag))
+		return fmt.Sprintf("EDelete %s %s", gnat(e.A), kit.GBool(e.Flag))
 	case "untaint":
-		return fmt.Sprintf("EUntaint %d", e.A)
+		return fmt.Sprintf("EUntaint %s", gnat(e.A))
 	}
-	return fmt.Sprintf("EClear %d", e.A)
+	return fmt.Sprintf("EClear %s", gnat(e.A))
 }
 
 func (e effect) short() string {
@@ -850,7 +850,9 @@ func (w *world) snapshot() snapshot {
 		}
 		s.Cmds = append(s.Cmds, cs)
 	}
-	for _, key := range w.rorder {
+	keys := append([][2]int{}, w.rorder...)
+	sort.Slice(keys, func(a, b int) bool { return keys[a][0] < keys[b][0] || keys[a][0] == keys[b][0] && keys[a][1] < keys[b][1] })
+	for _, key := range keys {
 		r := w.repls[key]
 		s.Repls = append(s.Repls, replSnap{K: r.K, J: r.J, Exists: r.Exists, Init: r.Init, Launched: r.Launched, InSt: w.cluster.NodeClaimExists(r.Name)})
 	}
@@ -861,15 +863,17 @@ func (s snapshot) gallina() string {
 	nodes := kit.GListOf(s.Nodes, func(n nodeSnap) string {
 		owner := "None"
 		if n.Owner >= 0 {
-			owner = fmt.Sprintf("(Some %d)", n.Owner)
+			owner = fmt.Sprintf("(Some %s)", gnat(n.Owner))
 		}
 		return fmt.Sprintf("(mkNode %s %s %s %s %s, %s, %s)", kit.GBool(n.Taint), kit.GBool(n.Cond), kit.GBool(n.Del), kit.GBool(n.Mark), kit.GBool(n.StDel), kit.GBool(n.MView), owner)
 	})
 	cmds := kit.GListOf(s.Cmds, func(c cmdSnap) string {
-		return fmt.Sprintf("mkCmd %d %s %s %s %s", c.ID, kit.GListOf(c.Cands, kit.GNat), kit.GListOf(c.Latched, kit.GBool), kit.GListOf(c.Deleted, kit.GBool), kit.GZ(c.Created))
+		return fmt.Sprintf("mkCmd %s %s %s %s %s", gnat(c.ID), kit.GListOf(c.Cands, gnat), kit.GListOf(c.Latched, kit.GBool), kit.GListOf(c.Deleted, kit.GBool), kit.GZ(c.Created))
 	})
 	repls := kit.GListOf(s.Repls, func(r replSnap) string {
-		return fmt.Sprintf("(%d, %d, mkRepl %s %s %s %s)", r.K, r.J, kit.GBool(r.Exists), kit.GBool(r.Init), kit.GBool(r.Launched), kit.GBool(r.InSt))
+		return fmt.Sprintf("(%s, %s, mkRepl %s %s %s %s)", gnat(r.K), gnat(r.J), kit.GBool(r.Exists), kit.GBool(r.Init), kit.GBool(r.Launched), kit.GBool(r.InSt))
 	})
 	return fmt.Sprintf("(mkSnap %s %s %s %s)", nodes, cmds, repls, kit.GZ(s.Now))
 }
+
+func gnat(n int) string { return fmt.Sprintf("%d%%nat", n) }
